@@ -22,7 +22,9 @@ func init() {
 		Level: "model_checking",
 		Rule: "universe = surroundings catalogue S (generics with constraints, labelled loops with goto/break/continue, struct tags, raw strings, iota groups, embedded interfaces, several init functions, nested closures, select/type switch, methods, bodiless functions, grouped type/var declarations, every operator and literal form) placed before / after / on both sides of / interleaved with 8 site-carrying declarations x 11 patches (expression, statement with elision, statement insertion, func-, type-, value-declaration, import add / replace, package guard / rename) x import layout {none, single, block} x {library API, CLI in place, CLI --skip-import-processing}. " +
 			"Oracle: canonical output (import declarations masked) is in the model's Allowed set, which entails that the package clause and every other declaration, statement and expression are identical and in the same order. non-trivial = the change applies to the file",
-		Bounds:  func(tier string) map[string]any { return map[string]any{"surroundings": len(gen.Surroundings()), "site_decls": len(c05SiteDecls())} },
+		Bounds: func(tier string) map[string]any {
+			return map[string]any{"surroundings": len(gen.Surroundings()), "site_decls": len(c05SiteDecls())}
+		},
 		NewCase: func() any { return &C05Case{} },
 		Gen:     c05Gen,
 		Setup:   cliSetup,
